@@ -822,6 +822,11 @@ fn gen_preseed(r: &mut Rng, lang: &str, mode: &Mode, world: &World) -> Vec<(Stri
             if r.chance(1, 3) {
                 v.push((format!("unrelated_{}.{ext}", r.below(10)), "not ours\n".to_string()));
             }
+            if r.chance(1, 12) {
+                // somebody else's large file in the same folder, sorting before every module
+                // (larger than the read-ahead, cache or batch budgets a tool is likely to have)
+                v.push(("0_assets.bin".to_string(), format!("fill:{}", r.pick(&[70u32, 1100, 5000, 9000]))));
+            }
         }
     }
     v
@@ -857,7 +862,9 @@ fn apply_preseed(case: &Case, out: &Path) {
         if let Some(parent) = p.parent() {
             let _ = std::fs::create_dir_all(parent);
         }
-        if let Some(hex) = content.strip_prefix("hex:") {
+        if let Some(kib) = content.strip_prefix("fill:").and_then(|k| k.parse::<usize>().ok()) {
+            let _ = std::fs::write(p, vec![b'.'; kib * 1024]);
+        } else if let Some(hex) = content.strip_prefix("hex:") {
             let bytes: Vec<u8> = hex.split_whitespace().filter_map(|h| u8::from_str_radix(h, 16).ok()).collect();
             let _ = std::fs::write(p, bytes);
         } else {
